@@ -74,6 +74,12 @@ func encodeXterm(key vaxis.Key, deckpam bool, decckm bool) string {
 				return buf.String()
 			}
 			switch key.Keycode {
+			case ' ':
+				buf.WriteRune(0x00)
+			case '/':
+				buf.WriteRune(0x1f)
+			case '?':
+				buf.WriteRune(0x7f)
 			case '1':
 				buf.WriteRune('1')
 			case '2':
@@ -90,9 +96,15 @@ func encodeXterm(key vaxis.Key, deckpam bool, decckm bool) string {
 				buf.WriteRune(0x1f)
 			case '8':
 				buf.WriteRune(0x7f)
-			case '9':
 			default:
-				buf.WriteRune(key.Keycode - 0x40)
+				if key.Keycode >= 0x40 && key.Keycode < 0x60 {
+					// @ A-Z [ \ ] ^ _
+					buf.WriteRune(key.Keycode - 0x40)
+				} else {
+					// no control code for this key: the
+					// character itself, as xterm does
+					buf.WriteRune(key.Keycode)
+				}
 			}
 			return buf.String()
 		}
